@@ -41,3 +41,10 @@ prop("C21",
      level_note="Trusted: Lean kernel; extractor (Observe condition/break/increment, codegen first-bound and sortedness tests); harness diff; IEEE comparison modelled by an order key (NaN unordered, -0 = +0); float addition is an abstract accumulator in the theorems and native binary64 addition in the executable model.",
      rule="every 2- and 3-subset of the bound grid {-2,-1,0,1e-7,0.5,1,2,4,1000000.5} as a declaration, observed with NaN, +-Inf, +-0, -3.5, 1e308 and each bound / its predecessor / its successor (thorough: additionally each value alone); rejected declarations; seeded random observation sequences (length < 30) through compiled declarations and directly built range lists with and without an explicit +Inf range. Non-trivial = distinct cases with at least one observation.",
      assumptions=["bucket bounds are never NaN (the parser produces only finite literals)"])
+
+prop("C10",
+     gens=["Gc", "Key"],
+     level_text="Proof: the model of Store.Gc's closure (limit loop calling RemoveOldestDatum, then the Go index walk with its i-- after a removal) is proved, for every metric satisfying the C09 invariant, every now and every limit, to compute exactly Spec.gc on the ordered-map view (gc_refines_spec); Spec.gc is proved to leave exactly `limit` entries when over the limit, to remove for the limit only entries no newer than every entry kept, to keep after that exactly the entries not (expiry > 0 and now - time > expiry) with time.Sub's saturation modelled, and to change nothing else (sublist, order kept). Each comparison operator at the decision points is regenerated from the source and checked by gc_source_shape. Tie: stores built from create/update(arbitrary timestamp)/expire/remove sequences, then the real Store.Gc(), survivors compared; deadlines keep a 2 s guard band from the GC instant.",
+     level_note="Trusted: Lean kernel; extractor (seven source facts); harness diff; wall clock handled by guard bands, so a boundary-only operator change is caught by the regenerated-fact obligation, not by a run (reported with no-failing-input-found). time.Time.Before/Sub modelled on int64 nanoseconds.",
+     rule="exhaustive: 3 tuples x (timestamp offset in {-10 s,-5 s,+2 s}) x (expiry in {0,3 s,7 s}) x limit 0..3 (quick: one third of the grid; thorough: all 2916); seeded random sequences (<= 25 ops over 6 tuples, offsets -1 h..+1 min, expiries incl. non-positive, limits 0..5). Non-trivial = distinct cases with at least two operations.",
+     assumptions=["Store.Gc reads time.Now() itself; the harness cannot inject a clock, so boundary instants (now - time == expiry) are covered by the extracted operators only"])
